@@ -219,6 +219,8 @@ fn settings_fields(v: Option<&Value>) -> (bool, bool) {
             };
             if !ok { return (false, false); }
             if k == "direct_solve_method" && !matches!(val.as_str().unwrap(), "auto" | "qdldl") { valid = false; }
+            // (only direct KKT solvers exist: a file that asks for an indirect one cannot be loaded into a solver)
+            if k == "direct_kkt_solver" && val == &Value::Bool(false) { valid = false; }
             if k == "chordal_decomposition_merge_method" && !matches!(val.as_str().unwrap(), "none" | "parent_child" | "clique_graph") { valid = false; }
         }
     }
@@ -367,6 +369,20 @@ pub fn fault_events(seed: u64, thorough: bool, dir: &str) -> Vec<Value> {
             for nv in [cur + 1, cur + 2, cur + 4, cur + 1000].into_iter().chain(if cur > 0 { vec![cur - 1, 0] } else { vec![] }) {
                 if nv == cur { continue; }
                 sem(&format!("{}.{} {} -> {}", mat, key, cur, nv), "any", &|x| { x[mat][key] = json!(nv); });
+            }
+        }
+        // every boolean of the stored settings flipped on its own; every cone dimension replaced by huge values
+        if let Some(so) = v.get("settings").and_then(|x| x.as_object()) {
+            for (k, val) in so { if let Some(bv) = val.as_bool() { let kk = k.clone(); sem(&format!("settings.{} flipped", k), "any", &|x| { x["settings"][kk.as_str()] = json!(!bv); }); } }
+        }
+        if let Some(ca) = v.get("cones").and_then(|x| x.as_array()) {
+            for (ci, c) in ca.iter().enumerate() {
+                let (tag, val) = c.as_object().unwrap().iter().next().unwrap();
+                let tg = tag.clone();
+                for big in [u64::MAX, 1u64 << 63, 1u64 << 62, 1u64 << 40] {
+                    if val.is_u64() { sem(&format!("cone {} dimension {}", ci, big), "any", &|x| { x["cones"][ci][tg.as_str()] = json!(big); }); }
+                    else if tag == "GenPowerConeT" { sem(&format!("cone {} dim2 {}", ci, big), "any", &|x| { x["cones"][ci][tg.as_str()][1] = json!(big); }); }
+                }
             }
         }
         sem("q one shorter", "Dims", &|x| { x["q"].as_array_mut().unwrap().pop(); });
